@@ -336,3 +336,8 @@ func newNodeDir(base string, k int) string {
 }
 
 const zeroCooloffConfig = "SessionExpiration = \"10m0s\"\nPostMessageCooloff = \"0s\"\n[IRC]\n[[IRC.Operators]]\nName = \"op\"\nPassword = \"pw\"\n[[IRC.Services]]\nPassword = \"mypass\"\n"
+
+// nodeRestore is a user-triggered restore of a snapshot on the running leader.
+func nodeRestore(meta *raft.SnapshotMeta, rc io.Reader) error {
+	return node.Restore(meta, rc, 10*time.Second)
+}
